@@ -1231,6 +1231,44 @@ def L_opt(fn, some, root_pred):
     return pred
 
 
+def L_poll(fn, ready, poll_blocks):
+    """Edge predicate, shape-independent: taking the edge implies that the `poll` call sitting in one of poll_blocks
+    answered Ready (ready=True) / Pending (ready=False).  Recognised: a discriminant switch on the call's result (`match`,
+    `if let Poll::Ready(..)`, `ready!`), and `is_ready()` / `is_pending()` tests of it, negated or not."""
+    poll_blocks = set(poll_blocks)
+
+    def pred(lab):
+        if lab.kind == "variant" and lab.variants and lab.variants <= {"Ready", "Pending"}:
+            if lab.variants != ({"Ready"} if ready else {"Pending"}):
+                return False
+            s = fn.call_defining(lab.place["l"])
+            return s is not None and s.bb in poll_blocks
+        if lab.kind == "bool" and lab.value is not None and lab.cond.kind == "call":
+            c = lab.cond.site
+            if c.matches(r"Poll.*::is_ready$"):
+                val = lab.value
+            elif c.matches(r"Poll.*::is_pending$"):
+                val = not lab.value
+            else:
+                return False
+            if val is not ready or not c.args:
+                return False
+            return any(r.kind == "call" and r.site.bb in poll_blocks for r in fn.roots(c.args[0]))
+        return False
+
+    return pred
+
+
+def fields_of(facts, adt_suffix):
+    a = facts.adt(adt_suffix)
+    return [(fl["name"], fl["ty"]) for fl in a["variants"][0]["fields"]] if a else []
+
+
+def field_where(facts, adt_suffix, ty_pred):
+    """Names of the fields of a struct whose declared type satisfies ty_pred (roles are found by type, not by name)."""
+    return [n for (n, t) in fields_of(facts, adt_suffix) if ty_pred(t)]
+
+
 def root_has(roots, kind=None, contains=None):
     for r in roots:
         if kind is not None and r.kind != kind:
